@@ -648,7 +648,7 @@ def run(ck: Check) -> None:
     guard.campaign(ck, render_probe.evaluate, probe, render_probe.ASSUMED_BY_C10)
     guard.campaign(ck, tpl_campaign.campaign_lex_auto, 600 if quick else 6000)  # last: the older campaigns keep their random streams
     ck.search_hooks.append(search_bad_table_char)
-    known_findings(ck)
+    guard.campaign(ck, known_findings)
 
 
 def replay(ck: Check, path: str) -> int:
